@@ -11,7 +11,8 @@ import threading
 
 
 def corpus_forms():
-    """name -> md text; chosen to touch every shared cache / mutated object the property's anchors list"""
+    """name -> md text; chosen to touch every shared cache / mutated object the property's anchors list
+    (f1: nested repeats with references, action-type questions, an entity *update* declaration; f3: an entity *create* declaration ...)"""
     f1 = """| survey |
 | | type | name | label | relevant | calculation | repeat_count |
 | | integer | n | N | | | |
@@ -25,6 +26,11 @@ def corpus_forms():
 | | end group | | | | | |
 | | calculate | d | | | indexed-repeat(${a}, ${r1}, 1) | |
 | | end repeat | | | | | |
+| | start-geopoint | sg | | | | |
+| | background-audio | ba | | | | |
+| entities |
+| | dataset | entity_id | update_if |
+| | trees | ${n} | ${n} > 0 |
 """
     f2 = """| survey |
 | | type | name | label::English (en) | label::French (fr) | hint::English (en) | guidance_hint::French (fr) | constraint | constraint_message::French (fr) |
